@@ -1,6 +1,7 @@
 import Proofs.Closed
 import Proofs.TeamAll
 import Proofs.Frame
+import Proofs.Counted
 /-!
 Two facts about every state the scheduler reaches, needed to read "the resource was not available" (what the walk sees)
 as "the slot is booked" (what the ledger says):
@@ -158,5 +159,48 @@ theorem has_closed (e : Env) (r : Nat) (i : Int) : Closed e (Has r i) where
     split
     · simp [Slot.book]
     · exact h
+
+/-- a limit that refuses a booking of `ro` at slot `i` (its counter for the period of `i` is at the limit) -/
+def Refuses (e : Env) (lid : Nat) (i : Int) (ro : Option Nat) (σ : St) : Prop := limitOk e σ lid i ro = false
+
+theorem limitOk_false_iff (e : Env) (σ : St) (lid : Nat) (i : Int) (ro : Option Nat) :
+    limitOk e σ lid i ro = false ↔
+      ¬ ((e.limitD lid).res.isSome && (e.limitD lid).res != ro) = true ∧ 0 ≤ e.period (e.limitD lid) i ∧
+      (e.limitD lid).value ≤ σ.cnt.get lid (e.period (e.limitD lid) i) := by
+  unfold limitOk
+  simp only []
+  by_cases h1 : ((e.limitD lid).res.isSome && (e.limitD lid).res != ro) = true
+  · simp [h1]
+  · simp only [h1, Bool.false_eq_true, if_false, not_false_eq_true, true_and]
+    by_cases h2 : e.period (e.limitD lid) i < 0
+    · simp only [h2, if_true]; constructor
+      · intro h; cases h
+      · intro h; omega
+    · simp only [h2, if_false, decide_eq_false_iff_not, Int.not_lt]
+      constructor
+      · intro h; exact ⟨by omega, h⟩
+      · intro h; exact h.2
+
+/-- counters only grow, so a limit that refuses keeps refusing -/
+theorem refuses_closed (e : Env) (lid : Nat) (i : Int) (ro : Option Nat) : Closed e (Refuses e lid i ro) where
+  eq := by
+    intro σ σ' _ hc _ h
+    unfold Refuses limitOk at *; rw [hc]; exact h
+  reserve := by intro σ r i' off _ _ _ h; exact h
+  release := by intro σ r i' t a _ _ _ _ h; exact h
+  book := by
+    intro σ r i' t _ _ _ _ _ _ h
+    unfold Refuses at *
+    rw [limitOk_false_iff] at h ⊢
+    refine ⟨h.1, h.2.1, ?_⟩
+    rw [bookSlot_eq']
+    have h2 : σ.cnt.get lid (e.period (e.limitD lid) i) ≤
+        (incAll e (bookLed e σ r i' t) (bookPairs e r t) i').cnt.get lid (e.period (e.limitD lid) i) :=
+      incAll_cnt_ge e (bookLed e σ r i' t) (bookPairs e r t) i' lid (e.period (e.limitD lid) i)
+    omega
+
+/-- some limit of the resource (own or of a group) or of the task (own or of a container) refuses the booking of `r` by `t` at `i` -/
+def Exhausted (e : Env) (σ : St) (t r : Nat) (i : Int) : Prop :=
+  (∃ lid ∈ resLimitIds e r, Refuses e lid i none σ) ∨ (∃ lid ∈ taskLimitIds e t, Refuses e lid i (some r) σ)
 
 end SP
